@@ -58,6 +58,10 @@ type VerifServerStats struct {
 	MaxBodyBuf   atomic.Int64
 	MaxClosedSet atomic.Int64
 	MaxWriterLen atomic.Int64
+	// octets of a header field cut by a frame boundary that are kept for a block being discarded
+	// (refused or reset stream); published together with the gauges above
+	DiscardedBytes    atomic.Int64
+	MaxDiscardedBytes atomic.Int64
 }
 
 var verifServers sync.Map // net.Conn -> *VerifServerStats
@@ -93,6 +97,13 @@ func (v *verifServer) ev(i int) {
 func (v *verifServer) busy() {
 	if v.st != nil {
 		v.st.Busy.Store(1)
+	}
+}
+
+func (v *verifServer) discarded(n int) {
+	if st := v.st; st != nil {
+		st.DiscardedBytes.Store(int64(n))
+		verifMax(&st.MaxDiscardedBytes, int64(n))
 	}
 }
 
